@@ -314,7 +314,10 @@ func subackOps() []hop {
 	sm := func(m message.Message) *message.SubackMessage { return m.(*message.SubackMessage) }
 	for _, c := range []byte{0, 1, 2, 0x80} {
 		c := c
-		ops = append(ops, hop{fmt.Sprintf("AddReturnCode(%#x)", c), func(m message.Message, p *refcodec.Packet) { sm(m).AddReturnCode(c); p.Codes = append(append([]byte(nil), p.Codes...), c) }})
+		ops = append(ops, hop{fmt.Sprintf("AddReturnCode(%#x)", c), func(m message.Message, p *refcodec.Packet) {
+			sm(m).AddReturnCode(c)
+			p.Codes = append(append([]byte(nil), p.Codes...), c)
+		}})
 	}
 	for _, id := range []uint16{7, 0x1234} {
 		id := id
@@ -332,7 +335,10 @@ func connackOps() []hop {
 	}
 	for _, c := range []byte{0, 1, 5} {
 		c := c
-		ops = append(ops, hop{fmt.Sprintf("SetReturnCode(%d)", c), func(m message.Message, p *refcodec.Packet) { cm(m).SetReturnCode(message.ConnackCode(c)); p.ReturnCode = c }})
+		ops = append(ops, hop{fmt.Sprintf("SetReturnCode(%d)", c), func(m message.Message, p *refcodec.Packet) {
+			cm(m).SetReturnCode(message.ConnackCode(c))
+			p.ReturnCode = c
+		}})
 	}
 	return append(ops, lenEncode()...)
 }
@@ -341,7 +347,10 @@ func ackOps() []hop {
 	var ops []hop
 	for _, id := range []uint16{7, 0x1234, 65535} {
 		id := id
-		ops = append(ops, hop{fmt.Sprintf("SetPacketID(%d)", id), func(m message.Message, p *refcodec.Packet) { m.(interface{ SetPacketID(uint16) }).SetPacketID(id); p.ID = id }})
+		ops = append(ops, hop{fmt.Sprintf("SetPacketID(%d)", id), func(m message.Message, p *refcodec.Packet) {
+			m.(interface{ SetPacketID(uint16) }).SetPacketID(id)
+			p.ID = id
+		}})
 	}
 	return append(ops, lenEncode()...)
 }
@@ -371,8 +380,14 @@ func connectOps() []hop {
 		q := q
 		ops = append(ops, hop{fmt.Sprintf("SetWillQos(%d)", q), func(m message.Message, p *refcodec.Packet) { cm(m).SetWillQos(q); p.WillQoS = q }})
 	}
-	ops = append(ops, hop{"SetUsername(\"u\")", func(m message.Message, p *refcodec.Packet) { cm(m).SetUsername([]byte("u")); p.HasUser, p.User = true, []byte("u") }})
-	ops = append(ops, hop{"SetPassword(\"pw\")", func(m message.Message, p *refcodec.Packet) { cm(m).SetPassword([]byte("pw")); p.HasPass, p.Pass = true, []byte("pw") }})
+	ops = append(ops, hop{"SetUsername(\"u\")", func(m message.Message, p *refcodec.Packet) {
+		cm(m).SetUsername([]byte("u"))
+		p.HasUser, p.User = true, []byte("u")
+	}})
+	ops = append(ops, hop{"SetPassword(\"pw\")", func(m message.Message, p *refcodec.Packet) {
+		cm(m).SetPassword([]byte("pw"))
+		p.HasPass, p.Pass = true, []byte("pw")
+	}})
 	return append(ops, lenEncode()...)
 }
 
